@@ -50,7 +50,69 @@ pub struct SockCase {
     pub queued: bool,
     /// address form for UDP: 0 = SocketAddr, 1 = "ip:port" string, 2 = slice [target, decoy]
     pub addr_form: u8,
+    /// form of the Unix socket path handed to the constructor: 0 = absolute as bound,
+    /// 1 = absolute padded with "/." segments to the longest allowed length (107 bytes),
+    /// 2 = relative to the working directory, 3 = relative and padded to 107 bytes
+    #[serde(default)]
+    pub path_form: u8,
     pub ops: Vec<SOp>,
+}
+
+/// The same socket file spelled differently (see `SockCase::path_form`); falls back
+/// to the absolute path where a form cannot be built.
+fn spell_path(path: &std::path::Path, form: u8) -> PathBuf {
+    const MAX: usize = 107; // sun_path holds 108 bytes including the terminating NUL
+    let abs = match path.to_str() {
+        Some(a) if a.starts_with('/') => a.to_string(),
+        _ => return path.to_path_buf(),
+    };
+    let (dir, file) = match abs.rsplit_once('/') {
+        Some(x) => x,
+        None => return path.to_path_buf(),
+    };
+    let pad = |prefix: &str| -> Option<String> {
+        // prefix + dir + ("/." * k) [+ "/"] + "/" + file  ==  MAX bytes
+        let base = prefix.len() + dir.len() + 1 + file.len();
+        if base > MAX {
+            return None;
+        }
+        let extra = MAX - base;
+        let mut out = String::with_capacity(MAX);
+        out.push_str(prefix);
+        out.push_str(dir);
+        for _ in 0..extra / 2 {
+            out.push_str("/.");
+        }
+        if extra % 2 == 1 {
+            out.push('/');
+        }
+        out.push('/');
+        out.push_str(file);
+        Some(out)
+    };
+    let rel_prefix = || -> Option<String> {
+        let cwd = std::env::current_dir().ok()?;
+        let depth = cwd.components().filter(|c| matches!(c, std::path::Component::Normal(_))).count();
+        let mut p = String::new();
+        for _ in 0..depth {
+            p.push_str("../");
+        }
+        // "../../" + "tmp/x" : drop the leading '/' of the absolute directory
+        p.pop();
+        Some(p)
+    };
+    match form % 4 {
+        1 => pad("").map(PathBuf::from).unwrap_or_else(|| path.to_path_buf()),
+        2 => match rel_prefix() {
+            Some(p) if p.len() + abs.len() <= MAX => PathBuf::from(format!("{}{}", p, abs)),
+            _ => path.to_path_buf(),
+        },
+        3 => match rel_prefix().and_then(|p| pad(&p)) {
+            Some(s) => PathBuf::from(s),
+            None => path.to_path_buf(),
+        },
+        _ => path.to_path_buf(),
+    }
 }
 
 fn sized_metric(n: usize) -> String {
@@ -359,6 +421,8 @@ fn build_sink(case: &SockCase, rx: &Rx) -> Result<DynSink, String> {
         Rx::Unix { path, .. } => {
             let sock = UnixDatagram::unbound().map_err(|e| e.to_string())?;
             sock.set_nonblocking(case.nonblocking).map_err(|e| e.to_string())?;
+            let spelled = spell_path(path, case.path_form);
+            let path = &spelled;
             Ok(match case.buffered {
                 None => Box::new(UnixMetricSink::from(path, sock)) as DynSink,
                 Some(None) => Box::new(BufferedUnixMetricSink::from(path, sock)) as DynSink,
@@ -956,8 +1020,8 @@ pub fn sock_case(g: SGen) -> BoxedStrategy<SockCase> {
         ]
         .boxed(),
     };
-    (transport, buffered, any::<bool>(), prop::bool::weighted(g.queued_p), 0u8..3)
-        .prop_flat_map(move |(transport, buffered, nonblocking, queued, addr_form)| {
+    (transport, buffered, any::<bool>(), prop::bool::weighted(g.queued_p), (0u8..3, prop_oneof![3 => Just(0u8), 1 => Just(1u8), 1 => Just(2u8), 1 => Just(3u8)]))
+        .prop_flat_map(move |(transport, buffered, nonblocking, queued, (addr_form, path_form))| {
             let cap = buffered.map(|b| b.unwrap_or(512));
             let fault_ops = g.faults && transport == Transport::Unix;
             let op = prop_oneof![
@@ -972,16 +1036,17 @@ pub fn sock_case(g: SGen) -> BoxedStrategy<SockCase> {
                 Just(buffered),
                 Just(nonblocking || fault_ops),
                 Just(queued),
-                Just(addr_form),
+                Just((addr_form, path_form)),
                 prop::collection::vec(op, 0..=g.max_ops),
             )
         })
-        .prop_map(|(transport, buffered, nonblocking, queued, addr_form, ops)| SockCase {
+        .prop_map(|(transport, buffered, nonblocking, queued, (addr_form, path_form), ops)| SockCase {
             transport,
             buffered,
             nonblocking,
             queued,
             addr_form,
+            path_form,
             ops,
         })
         .boxed()
@@ -1027,6 +1092,9 @@ impl Campaign for SockCampaign {
         });
         if case.queued {
             classes.push("through a queuing sink");
+        }
+        if case.transport == Transport::Unix && case.path_form % 4 != 0 {
+            classes.push("unix path given in a relative and/or maximal-length (107 bytes) spelling");
         }
         if run.stats.failed_calls > 0 {
             classes.push("socket refused a datagram");
@@ -1129,6 +1197,7 @@ impl Campaign for ConcSockCampaign {
             nonblocking: false,
             queued: false,
             addr_form: 0,
+            path_form: 0,
             ops: vec![],
         };
         let sink: Arc<DynSink> = match build_sink(&sc, &rx) {
@@ -1552,6 +1621,7 @@ impl Campaign for QueueStatsIdentity {
             nonblocking: true,
             queued: false,
             addr_form: 0,
+            path_form: 0,
             ops: vec![],
         };
         let inner = match build_sink(&sc, &rx) {
